@@ -756,7 +756,8 @@ func twinSession(t *testing.T, run *ev.Run, si, n int, concurrent bool) *violati
 		if aerA.VMState == vmstate.Halt {
 			// the script did not fault (e.g. out of gas margin too large): nothing to compare
 			run.Obs("twin_fault_script_halted", 1)
-			return &violation{"harness:fault-script-halted", "the faulting script halted: " + desc, wit(nil)}
+			run.Inconclusive("twins/s%d: the faulting script halted: %s", si, desc)
+			return nil
 		}
 		if len(aerA.Events) != 0 {
 			run.Obs("faulted_execution_results_listing_events", 1)
